@@ -240,6 +240,7 @@ def required_counters(tier):
         "ops:fileview",
         "enum:histories",
         "rand:histories",
+        "mutable-producer-histories",
         "remain_invariant_checked",
         "fileview_last",
         "readonly:cases",
@@ -254,7 +255,10 @@ def required_counters(tier):
 # ------------------------------------------------------- overflowable buffer
 
 
-def run_history(ov, ops, stats=None):
+_FLIP = bytes(b ^ 0xFF for b in range(256))
+
+
+def run_history(ov, ops, stats=None, mutable=False):
     """Execute one history on a real OverflowableBuffer in lock-step with the
     reference queue.  Returns (violations, representations visited).
     violation = (key, what, index of the offending op).  Stops at the first
@@ -289,7 +293,14 @@ def run_history(ov, ops, stats=None):
                     data = PAT[appended : appended + arg]
                     if len(data) != arg:
                         raise AssertionError("pattern exhausted (harness)")
-                    buf.append(data)
+                    if mutable:
+                        # the producer hands over a mutable object and reuses it afterwards
+                        # (readinto-style): what was queued must not change with it
+                        m = bytearray(data)
+                        buf.append(m)
+                        m[:] = m.translate(_FLIP)
+                    else:
+                        buf.append(data)
                     q += data
                     appended += arg
                 elif name == "peek":
@@ -448,8 +459,10 @@ def brief_ops(ops):
     return " ".join(f"{n}({'' if a is None else a})" for n, a in ops)
 
 
-def do_history(acc, ov, ops, mode):
-    viols, path = run_history(ov, ops, acc.counters)
+def do_history(acc, ov, ops, mode, mutable=False):
+    viols, path = run_history(ov, ops, acc.counters, mutable=mutable)
+    if mutable:
+        acc.count("mutable-producer-histories")
     acc.evaluations += 1
     ps = ">".join(REPR[s] for s in path)
     letters = [kind_letter(n, a) for n, a in ops]
@@ -463,6 +476,9 @@ def do_history(acc, ov, ops, mode):
         # the last operation decides if its position is restored, so cutting
         # could change what is replayed; run_history stops at op#idx anyway
         case = ov_case(ov, ops)
+        if mutable:
+            case["mutable"] = True
+            key = key + ":mutable-producer"
         acc.violation(key, f"overflow={ov} op#{idx}: {what} | history: {brief_ops(case['ops'])}"[:900], case)
     return path
 
@@ -742,6 +758,8 @@ def run_shard(spec):
         for prefix in spec["prefixes"]:
             for ops in enum_histories(ov, L, prefix):
                 path = do_history(acc, ov, ops, "enum")
+                if n % 7 == 0:
+                    do_history(acc, ov, ops, "enum", mutable=True)
                 n += 1
                 if spec.get("sample") and len(path) == 3 and len(acc.samples) < 1 and ops[-1][0] != "append":
                     acc.sample({"overflow": ov, "history": brief_ops(ops), "representations": ">".join(REPR[s] for s in path)})
@@ -752,7 +770,7 @@ def run_shard(spec):
         for _ in range(spec["n"]):
             ov = rng.choice(OVERFLOWS)
             ops = random_history(rng, ov)
-            path = do_history(acc, ov, ops, "rand")
+            path = do_history(acc, ov, ops, "rand", mutable=(_ % 4 == 3))
             acc.maxi("random_history_max_len", len(ops))
             if spec.get("sample") and len(path) == 3 and len(ops) <= 12 and len(acc.samples) < 1:
                 acc.sample({"overflow": ov, "random_history": brief_ops(ops), "representations": ">".join(REPR[s] for s in path)})
@@ -787,9 +805,10 @@ def replay(case):
     kind = case.get("kind")
     if kind == "overflowable":
         ops = [tuple(o) for o in case["ops"]]
-        viols, path = run_history(case["overflow"], [list(o) for o in ops])
+        viols, path = run_history(case["overflow"], [list(o) for o in ops], mutable=bool(case.get("mutable")))
         return [
-            {"key": key, "what": f"overflow={case['overflow']} op#{idx}: {what} | history: {brief_ops(case['ops'])}"[:900], "case": case}
+            {"key": key + (":mutable-producer" if case.get("mutable") else ""),
+             "what": f"overflow={case['overflow']} op#{idx}: {what} | history: {brief_ops(case['ops'])}"[:900], "case": case}
             for key, what, idx in viols
         ]
     if kind == "readonly":
